@@ -1,5 +1,5 @@
 CONSTANTS
-  Operands <- AllOperands
+  Operands <- LitOperands
   Binary <- LitBinary
   Prefix = {"u-"}
   Postfix = {"%"}
@@ -10,6 +10,7 @@ CONSTANTS
   Lit <- MCLit
   LitDev <- MCLitDev
   Refs <- MCRefs
+  RefAt <- MCRefAt
   Envs <- MCEnvs
 SPECIFICATION Spec
 INVARIANT TypeOK
